@@ -86,6 +86,18 @@ def _gen_op(r, model):
                 'set': ['call', '__setitem__', [te, ['str', 'hk'] if not is_list else ['num', '0'], ['name', 'v']], 'plain']}[how]
         return ['assign', 'adder', ['lambda', ['v'], body]], 'define'
     val = r.choice([['num', '7'], ['str', 'v'], ['list', [['num', '1']]], ['name', 'x']])
+    if k == 'add' and r.random() < 0.15:
+        # the same adders reached under another name or as a value: still adders
+        a = r.choice(['alias_push', 'alias_set', 'reduce_push', 'alias_insert'])
+        if a == 'alias_push' and is_list:
+            return ['block', [['assign', 'pp', ['name', 'push']], ['call', 'pp', [te, val], r.choice(['plain', 'method', 'pipe'])]]], 'push'
+        if a == 'alias_insert' and is_list:
+            return ['block', [['assign', 'ii', ['name', 'insert']], ['call', 'ii', [te, ['num', '0'], val], 'plain']]], 'insert'
+        if a == 'alias_set':
+            key = ['num', '0'] if is_list else ['str', 'aliased%d' % r.randint(0, 2)]
+            return ['block', [['assign', 'ss', ['name', '__setitem__']], ['call', 'ss', [te, key, val], 'plain']]], 'setitem'
+        if is_list:
+            return ['call', 'reduce', [['list', [te, val]], ['name', 'push']], 'plain'], 'push'
     if k == 'add':
         if is_list:
             a = weighted(r, [('push', 4), ('insert', 3), ('set', 2), ('setop', 2), ('setnew', 1), ('pushmany', 1), ('insertmany', 0.5)])
